@@ -276,6 +276,13 @@ CLAIMED["C14"]["text"] += (" Round 9/10: phases company-only and company-only-ra
   "shared mutable state); phase seq also gives every program's source text, extended by one of 15 faults the parser reports only after the whole valid program, four times to the "
   "execute-a-source entry point in fresh environments: same error status, value and trace every time.")
 
+
+for _k in ("C03", "C04", "C05", "C06", "C07", "C08", "C09", "C10", "C11", "C12", "C17", "C19", "C20"):
+    CLAIMED[_k]["technique"] += "; the same cases judged again while other executions overlap in the worker process (company of self-checking programs)"
+for _k in ("C03", "C04", "C05", "C06", "C07", "C08", "C09", "C10", "C11", "C19", "C20"):
+    CLAIMED[_k]["technique"] += "; a grid of swallowed faults judged against fault-free sibling programs (metamorphic runtime monitor)"
+CLAIMED["C14"]["technique"] += "; the race detector and self-checks over a battery of programs executed eight at a time in environments and trees of their own"
+
 def main():
     checks = []
     for pid in ALL:
